@@ -87,8 +87,20 @@ Fixpoint decide (ps : list pat) (path : list str) (is_dir : bool) : dec :=
       end
   end.
 
-(** A path is ignored if it or any parent directory is: walking up from the path, the first level with a
-    decision decides ([Gitignore::matched_path_or_any_parents]). [rp] is the path leaf first. *)
+(** gitignore: a path is ignored if it or any parent directory is decided "ignore" (a negation cannot
+    re-include a file below an excluded directory). [rp] is the path leaf first; parents are directories.
+    This is what [IgnoreFile::is_ignored] computes after the repair. *)
+Fixpoint git_up (ps : list pat) (rp : list str) (is_dir : bool) : bool :=
+  match rp with
+  | [] => false
+  | _ :: parent =>
+      (match decide ps (rev rp) is_dir with DIgnore => true | _ => false end) || git_up ps parent true
+  end.
+Definition gi_ignored (ps : list pat) (path : list str) (is_dir : bool) : bool := git_up ps (rev path) is_dir.
+
+(** The walk of the [ignore] crate's [Gitignore::matched_path_or_any_parents]: going up from the path, the
+    first level with a decision decides. Equal to [gi_ignored] when no negation takes part
+    (Proofs.gi_nearest_agree); otherwise it lets "!temp/keep.sql" re-include below an ignored "temp/". *)
 Fixpoint ig_up (ps : list pat) (rp : list str) (is_dir : bool) : bool :=
   match rp with
   | [] => false
@@ -99,18 +111,7 @@ Fixpoint ig_up (ps : list pat) (rp : list str) (is_dir : bool) : bool :=
       | DNone => ig_up ps parent true
       end
   end.
-Definition gi_ignored (ps : list pat) (path : list str) (is_dir : bool) : bool := ig_up ps (rev path) is_dir.
-
-(** git's own top-down reading: excluded iff the path or some parent directory is decided "ignore"
-    (a negation cannot re-include below an excluded directory). Equal to [gi_ignored] when no negation
-    takes part (Proofs.gi_git_agree). *)
-Fixpoint git_up (ps : list pat) (rp : list str) (is_dir : bool) : bool :=
-  match rp with
-  | [] => false
-  | _ :: parent =>
-      (match decide ps (rev rp) is_dir with DIgnore => true | _ => false end) || git_up ps parent true
-  end.
-Definition gi_git (ps : list pat) (path : list str) (is_dir : bool) : bool := git_up ps (rev path) is_dir.
+Definition gi_nearest (ps : list pat) (path : list str) (is_dir : bool) : bool := ig_up ps (rev path) is_dir.
 
 Definition no_neg (ps : list pat) : bool := forallb (fun p => negb (p_neg p)) ps.
 
